@@ -4,6 +4,7 @@ go 1.23
 
 require (
 	github.com/advancedclimatesystems/gonnx v0.0.0
+	github.com/chewxy/math32 v1.10.1
 	golang.org/x/tools v0.29.0
 	gorgonia.org/tensor v0.9.24
 )
@@ -11,7 +12,6 @@ require (
 require (
 	github.com/apache/arrow/go/arrow v0.0.0-20211112161151-bc219186db40 // indirect
 	github.com/chewxy/hm v1.0.0 // indirect
-	github.com/chewxy/math32 v1.10.1 // indirect
 	github.com/gogo/protobuf v1.3.2 // indirect
 	github.com/golang/protobuf v1.5.3 // indirect
 	github.com/google/flatbuffers v23.5.26+incompatible // indirect
